@@ -283,9 +283,12 @@ def design_case(draw, ctx, op: str, depth1: bool = False):
     if quick:  # one background/dtype variant per shape bounds the number of compilations
         case["bg"], case["dtype"] = VARIANTS[si % len(VARIANTS)]
         case["exec"] = "jit"
+    elif op == "connect":  # compilation is expensive (5-30 s): two variants per shape
+        case["bg"], case["dtype"] = VARIANTS[(si + 3 * draw(st.integers(0, 1))) % len(VARIANTS)]
+        case["exec"] = "jit"
     else:
         case["bg"], case["dtype"] = draw(st.sampled_from(VARIANTS))
-        case["exec"] = draw(st.sampled_from(["jit"] * 19 + ["eager"])) if op == "remove" else "jit"
+        case["exec"] = draw(st.sampled_from(["jit"] * 19 + ["eager"]))
     return case
 
 
